@@ -118,6 +118,15 @@ def relabel(recs, kind, rng):
                 last_p = [r.resnum for r in recs if r.raw is None and r.chain == prev][-1] + sh[prev]
                 first_p = next(r.resnum for r in recs if r.raw is None and r.chain == prev) + sh[prev]
                 choices += [last_p - first_c, first_p - first_c, last_p - first_c, first_p - first_c]
+            # a hetero residue of this chain gets the number of a like-named hetero residue of an
+            # earlier chain (two copies of a ligand that differ in the chain identifier only)
+            het_c = sorted({(r.resn, r.resnum) for r in recs if r.raw is None and r.chain == c and r.tag == "HETATM"})
+            ties = []
+            for p_ in chains[:chains.index(c)]:
+                for (rn, num) in sorted({(r.resn, r.resnum) for r in recs if r.raw is None and r.chain == p_ and r.tag == "HETATM"}):
+                    ties += [num + sh[p_] - n2 for (rn2, n2) in het_c if rn2 == rn]
+            if ties:
+                choices += [rng.choice(ties)] * 6
             s = rng.choice(choices)
             if lo[c] + s < -999 or hi[c] + s > 9999:
                 s = 0
@@ -164,6 +173,19 @@ def run_case(case, tier):
     else:
         base = sources.random_small_structure(rng, 80, 700) if rng.random() < 0.6 else sources.chimera(rng, allow_blank=True)[0]
         recs, ntw = make_twins(base, rng)
+    if case["kind"] != "file" and rng.random() < 0.25:
+        # two copies of one ligand in two chains, under different residue numbers
+        from .. import fragments
+        from .c16 import titratable_anchor
+        chs = sorted({r.chain for r in recs if r.raw is None and r.chain != " "})
+        chs = (chs + ["L", "M"])[:2] if len(chs) < 2 else rng.sample(chs, 2)
+        fname = rng.choice(sorted(fragments.FRAGMENTS))
+        for ch, num in zip(chs, (rng.randrange(600, 900), rng.randrange(901, 990))):
+            frag, _e, _d = fragments.place_near(recs, fname, rng, anchor=titratable_anchor(recs, rng),
+                                                dist_A=rng.choice((3.0, 3.5, 4.5, 6.0)), chain=ch, resnum=num)
+            if frag:
+                recs = recs + frag
+        classes.append("ligand-copies-in-two-chains")
     if not sources.identities_unique(recs):
         return util.finish(case, viol, counts, classes, False, {"skipped": "two residues share one identity"},
                            inconclusive="ill-formed")
